@@ -18,7 +18,8 @@ CHECKS = {
             ("R-NORM", "r_norm", "run", ("quick", "thorough")),
             ("R-ALLOC.blockmove", "r_alloc", "run_blockmove", ("quick", "thorough")),
             ("R-BUFGROW", "r_alloc", "run_bufgrow", ("quick", "thorough")),
-            ("R-SIGN.alloc", "r_sign", "run_realloc", ("quick", "thorough"))],
+            ("R-SIGN.alloc", "r_sign", "run_realloc", ("quick", "thorough")),
+            ("R-SIGN.count", "r_sign", "run_counts", ("quick", "thorough"))],
     "C05": [("R-ALIAS", "r_alias", "run", ("quick", "thorough")),
             ("R-CONSTSRC.ir", "r_constsrc", "run", ("quick", "thorough")),
             ("R-OVERLAP.contract", "r_ovcontract", "run", ("quick", "thorough"))],
@@ -104,6 +105,7 @@ RULES = {
     "R-DENONE": ("r_sign", "run_den_one"),
     "R-ORDER": ("r_order", "run"),
     "R-SIGN.alloc": ("r_sign", "run_realloc"),
+    "R-SIGN.count": ("r_sign", "run_counts"),
 }
 
 EXPLANATION = {
@@ -220,6 +222,9 @@ EXPLANATION = {
 }
 
 ASSUMPTIONS = {
+    "R-SIGN.count": ["R-SIGN's sign domain over the functions of mpz/ mpq/ mpf/ that call mpn routines: every argument of type mp_size_t is a limb count "
+                     "(one reviewed exception: the third argument of mpn_get_d is the sign of the result); only signs that come from operand objects "
+                     "count as attained"],
     "R-SIGN.alloc": ["R-SIGN's sign domain over every function of mpz/ mpq/ mpf/ that compares a quantity with an _mp_alloc field (the growth test of "
                      "MPZ_REALLOC and its hand-written forms); only signs that come from operand objects count as the caller's free choice - a "
                      "scalar size argument is bound by the function's own contract (mpz_limbs_write (x, n) requires n > 0)"],
